@@ -65,6 +65,9 @@ class Spec:
         self.trusted = False       # assumed contract (never verified): listed in evidence
         self.frame_props = ()
         self.lemma_fns = []
+        self.state_post = []       # clauses over (args, result, final state of the stateful receiver)
+        self.raise_post = []       # clauses over (args, exception class name, exception value, final state) on raising paths
+        self.mutable_self = None   # field types of a stateful receiver whose state is threaded through the execution
         self.ghost_defs = []       # definitions of ghost (spec) functions assumed while the body is verified
         self.defs = []             # definitional clauses (ghost result functions): assumed at call sites, never verified
 
@@ -93,6 +96,21 @@ class Spec:
         values of its arguments); it is assumed at call sites, never verified against the body, and listed in the
         evidence."""
         self.defs.append(Clause(name, fn, props))
+        return self
+
+    def stateful(self, fields):
+        """the receiver is a stateful object (plain class with attribute stores): its fields (name -> type, or
+        ("iterator", SeqTy) for an underlying iterator) are threaded through the execution; `ensures_state` / `on_raise`
+        clauses relate the final field values to the initial ones"""
+        self.mutable_self = dict(fields)
+        return self
+
+    def ensures_state(self, name, fn, props=()):
+        self.state_post.append(Clause(name, fn, props))
+        return self
+
+    def on_raise(self, name, fn, props=()):
+        self.raise_post.append(Clause(name, fn, props))
         return self
 
     def ghost_definition(self, name, fn):
